@@ -76,6 +76,7 @@ class Part:
     # custom: run(ctx: dict) -> Collected (single process unless it forks itself)
     run: Optional[Callable[[dict], 'Collected']] = None
     shrink: bool = True
+    case_limit: Optional[float] = None  # per-case watchdog in seconds (default PV_CASE_LIMIT)
 
 
 @dataclass
@@ -88,9 +89,12 @@ class Collected:
     buckets: Dict[str, Dict[str, Any]] = field(default_factory=dict)
     harness_errors: List[str] = field(default_factory=list)
     notes: List[str] = field(default_factory=list)
+    timeouts: int = 0  # cases of this shard that hit the per-case watchdog
 
     def add(self, case, res: Result, distinct_by_construction=False, keep_samples=6):
         self.evaluations += 1
+        if any(TIMEOUT_MARK in f.signature for f in res.failures):
+            self.timeouts += 1
         for c in res.classes:
             self.classes[c] = self.classes.get(c, 0) + 1
         if res.nontrivial:
@@ -162,14 +166,24 @@ def derive_seed(*parts) -> int:
 # safe evaluation of check_case
 # ----------------------------------------------------------------------------------------------
 
-def _lib_frame(tb) -> Optional[str]:
-    """innermost traceback frame that lies inside the peptacular package, as 'file:function'"""
+def _lib_frame(tb, outermost=False) -> Optional[str]:
+    """innermost (or outermost) traceback frame that lies inside the peptacular package, as 'file:function'"""
     found = None
     for fs in traceback.extract_tb(tb):
         fn = fs.filename.replace('\\', '/')
         if '/peptacular/' in fn and '/pv/' not in fn:
             found = f"{os.path.basename(fn)}:{fs.name}"
+            if outermost:
+                break
     return found
+
+
+TIMEOUT_MARK = '/no-result-within-time-limit/'
+MAX_TIMEOUTS_PER_SHARD = 2  # a shard stops after this many non-returning cases (each costs the full limit)
+
+
+class _AbortShard(Exception):
+    pass
 
 
 class CaseTimeout(BaseException):
@@ -191,10 +205,11 @@ def safe_check(part: Part, case, prop_id: str) -> Result:
     a Failure instead of a check that never ends; if the limit expires outside library code it is a
     harness error."""
     armed = False
+    limit = min(CASE_LIMIT, part.case_limit) if part.case_limit else CASE_LIMIT
     try:
         if threading.current_thread() is threading.main_thread():
             signal.signal(signal.SIGALRM, _on_alarm)
-            signal.setitimer(signal.ITIMER_REAL, CASE_LIMIT)
+            signal.setitimer(signal.ITIMER_REAL, limit)
             armed = True
         try:
             with warnings.catch_warnings():
@@ -204,13 +219,13 @@ def safe_check(part: Part, case, prop_id: str) -> Result:
             if armed:
                 signal.setitimer(signal.ITIMER_REAL, 0)
     except CaseTimeout as e:
-        frame = _lib_frame(e.__traceback__)
+        frame = _lib_frame(e.__traceback__, outermost=True)  # the entry point is stable; the interrupted inner frame is not
         if frame is None:
-            raise HarnessError(f"{prop_id}/{part.name}: case exceeded {CASE_LIMIT:.0f}s outside library code\n"
+            raise HarnessError(f"{prop_id}/{part.name}: case exceeded {limit:.0f}s outside library code\n"
                                f"case={json.dumps(_jsonable(case))[:2000]}")
         r = Result()
-        r.fail('every call on an input of the domain returns or raises', f'{prop_id}/{part.name}/no-result-within-time-limit/{frame}',
-               limit_s=CASE_LIMIT)
+        r.fail('every call on an input of the domain returns or raises', f'{prop_id}/{part.name}{TIMEOUT_MARK}{frame}',
+               limit_s=limit)
         return r
     except HarnessError:
         raise
@@ -267,8 +282,12 @@ def _worker_hyp(args):
         def run(case):
             res = safe_check(part, case, prop_id)
             col.add(case, res)
+            if col.timeouts >= MAX_TIMEOUTS_PER_SHARD:
+                raise _AbortShard()
 
         run()
+    except _AbortShard:
+        col.notes.append(f'{part_name} shard {shard}: stopped after {col.timeouts} cases that did not return within the time limit')
     except HarnessError as e:
         col.harness_errors.append(str(e))
     except Exception as e:  # noqa
@@ -289,6 +308,9 @@ def _worker_enum(args):
         for case in it:
             res = safe_check(part, case, prop_id)
             col.add(case, res, distinct_by_construction=part.distinct_by_construction)
+            if col.timeouts >= MAX_TIMEOUTS_PER_SHARD:
+                col.notes.append(f'{part_name} shard {shard}: stopped after {col.timeouts} cases that did not return within the time limit')
+                break
     except HarnessError as e:
         col.harness_errors.append(str(e))
     except Exception as e:  # noqa
